@@ -67,6 +67,13 @@ class Impl(object):
             self.backing = fp
         elif name == 'TICK':
             env.tick()
+        elif name == 'QUERY':
+            global LIVE
+            LIVE[0] = True
+            try:
+                observe(self.iso, self.cfg)
+            finally:
+                LIVE[0] = False
         else:
             getattr(self.iso, name)(**kw)
 
